@@ -5,6 +5,7 @@ The transition table, proposal-phase set and terminal set are the regenerated `G
 -/
 import Drand.Basic
 import Gen.DKGTable
+import Gen.DKGAuth
 
 namespace Drand.DKG
 open Drand
@@ -155,6 +156,18 @@ def minimumT (n : Nat) : Nat := n / 2 + 1
 
 /-! ### proposal validation -/
 
+/-- length of an identity signature under a scheme (`Scheme.SigGroup.PointLen()`; kyber's point encodings — trusted, and
+compared by the `dkgsm` driver with the length of every well-formed participant signature the harness makes) -/
+def schemeSigLen (scheme : String) : Nat :=
+  if scheme == "pedersen-bls-chained" || scheme == "pedersen-bls-unchained" then 96
+  else if scheme == "bls-unchained-g1-rfc9380" || scheme == "bls-unchained-on-g1" then 48
+  else if scheme == "bls-bn254-unchained-on-g1" then 64 else 0
+
+/-- (variant: reports/dkg_fix_1.diff) every participant signature written into the signed message has the length of a
+signature of the scheme -/
+def sigLengthsOK (t : Terms) : Bool :=
+  (t.joining ++ t.remaining ++ t.leaving ++ [t.leader]).all fun p => p.sig.length == schemeSigLen t.schemeID
+
 def validateEpoch (cur : DBState) (t : Terms) : Except Err Unit :=
   if t.epoch < cur.epoch then .error .invalidEpoch
   else if t.epoch == cur.epoch && cur.state != .aborted && cur.state != .timedOut && cur.state != .failed then
@@ -162,15 +175,21 @@ def validateEpoch (cur : DBState) (t : Terms) : Except Err Unit :=
   else if t.epoch > cur.epoch + 1 && (cur.state != .left && cur.state != .fresh) then .error .invalidEpoch
   else .ok ()
 
-def validateForAllDKGs (cur : DBState) (t : Terms) (now : Int) : Except Err Unit := do
+def validateForAllDKGsV (fixSigLen : Bool) (cur : DBState) (t : Terms) (now : Int) : Except Err Unit := do
   if cur.beaconID != t.beaconID then throw .invalidBeaconID
   if !(Gen.schemeIDs.contains t.schemeID) then throw .invalidScheme
   if !(t.joining.all (fun p => p.selfSigOK && p.scheme == t.schemeID)) then throw .invalidKeyScheme
+  -- the code as it is has no such check (Gen.DKGAuth.validatesSignatureLengths = false): finding "list boundary inside a signature field"
+  if fixSigLen && !(sigLengthsOK t) then throw .invalidKeyScheme
   if t.timeout < now then throw .timeoutReached
   let nodeCount := t.joining.length + t.remaining.length
   if t.threshold > nodeCount then throw .thresholdHigherThanNodeCount
   if t.threshold < minimumT nodeCount then throw .thresholdTooLow
   validateEpoch cur t
+
+/-- `validateForAllDKGs` of the code as regenerated -/
+def validateForAllDKGs (cur : DBState) (t : Terms) (now : Int) : Except Err Unit :=
+  validateForAllDKGsV Gen.DKGAuth.validatesSignatureLengths cur t now
 
 def validateFirstEpoch (t : Terms) : Except Err Unit := do
   if t.genesisSeed.length != 0 then throw .noGenesisSeedForFirstEpoch
